@@ -245,7 +245,7 @@ _seqs3 = [list(s) for s in itertools.product(("add", "change", "adjust", "update
 HARNESSES = [
     Harness("C08.op_reset", op_reset, functions=_ALL, assumptions=_A, params={"quick": [{"n": 3, "keep": False}, {"n": 3, "keep": True}], "thorough": [{"n": 5, "keep": False}, {"n": 5, "keep": True}]}),
     Harness("C08.op_add", op_add, functions=_ALL, assumptions=_A, params={"quick": [{"n": 2, "k": 1}, {"n": 3, "k": 2}], "thorough": [{"n": 4, "k": 3}, {"n": 5, "k": 1}]}),
-    Harness("C08.op_change", op_change, functions=_ALL, assumptions=_A + ["cMin > 0"], opts={"ob_timeout": 30.0, "max_paths": 400},
+    Harness("C08.op_change", op_change, functions=_ALL, assumptions=_A + ["cMin > 0"], opts={"ob_timeout": 75.0, "max_paths": 400},
             budget={"quick": 240.0, "thorough": 1800.0},
             params={"quick": [{"n": 2, "nb": 2, "_shards": 4}, {"n": 2, "nb": 3, "_shards": 4}], "thorough": [{"n": 3, "nb": 2, "_shards": 4}, {"n": 3, "nb": 3, "_shards": 8}, {"n": 2, "nb": 4, "_shards": 4}]}),
     Harness("C08.op_change_reset", op_change_reset, functions=_ALL, assumptions=_A, params={"quick": [{"n": 2, "nb": 3}], "thorough": [{"n": 3, "nb": 5}]}),
